@@ -31,7 +31,7 @@ def run(w: World, rep: Report):
              'shrinking difference, bounded range, finite collection, popping body)', floor=40)
     rep.rule('C07.R6', 'no script-chosen integer reaches an allocation sink unless bounded by a Stack/Tape '
              'limit under a dominating script-error guard', floor=4)
-    rep.rule('C07.R7', 'limit guards raise the script-error class', floor=6)
+    rep.rule('C07.R7', 'limit guards raise the script-error class', floor=2)
     storage = _storage_attr(w)
     _r1(w, rep, storage)
     _r2(w, rep)
@@ -187,7 +187,7 @@ def _r1(w: World, rep: Report, storage: str):
             for t, succ, lab in edges:
                 for s2, l2 in t.succ:
                     if l2 is not lab and name != 'type':
-                        ok = s2.kind == 'raise' and s2.exc == SCRIPT_ERR
+                        ok = cfg.raise_class_of(s2) == SCRIPT_ERR
                         rep.check('C07.R7', f'classes.Stack.put|{name}|error-class', ok, line=t.line, file=RELC,
                                   why='' if ok else f'limit violation does not raise {SCRIPT_ERR}')
     # limits are the constructor arguments
@@ -258,7 +258,7 @@ def _r2(w: World, rep: Report):
         for t, succ, lab in edges:
             for s2, l2 in t.succ:
                 if l2 is not lab:
-                    ok = s2.kind == 'raise' and s2.exc == SCRIPT_ERR
+                    ok = cfg.raise_class_of(s2) == SCRIPT_ERR
                     rep.check('C07.R7', f'classes.{q}|bounds|error-class', ok, line=t.line, file=RELC,
                               why='' if ok else f'tape overrun does not raise {SCRIPT_ERR}')
         # the slice must be [pointer : pointer+size]
@@ -439,7 +439,7 @@ def _r4(w: World, rep: Report):
         for t, succ, lab in edges:
             for s2, l2 in t.succ:
                 if l2 is not lab:
-                    ok = s2.kind == 'raise' and s2.exc == SCRIPT_ERR
+                    ok = cfg.raise_class_of(s2) == SCRIPT_ERR
                     rep.check('C07.R7', f'functions.{fname}|depth|error-class', ok, line=t.line, file=RELF,
                               why='' if ok else f'call-depth violation does not raise {SCRIPT_ERR}')
     if n < 6:
@@ -766,6 +766,6 @@ def _bounded_by_guard(cfg, n, arg) -> bool:
                 if lab is True:
                     # the failing side must raise the script-error class
                     bad = [s2 for s2, l2 in t.succ if l2 is False]
-                    if all(s2.kind == 'raise' and s2.exc == SCRIPT_ERR for s2 in bad):
+                    if all(cfg.raise_class_of(s2) == SCRIPT_ERR for s2 in bad):
                         edges.append((t, succ, lab))
     return bool(edges) and cfg.must_pass(cfg.entry, n, through_edges=edges)
